@@ -35,8 +35,8 @@ DET=""
 for C in $CHECKS; do
   mkdir -p "$S/root"; cp $HERE/known_findings.txt "$S/root/"
   VERIF_REPO="$S/mut" VERIF_ROOT="$S/root" VERIF_BUDGET_S=400 $HERE/run $C quick >"$S/c.log" 2>&1; rc=$?
-  sigs=$(grep -o 'violation sig=[^ ]*' "$S/c.log" | sort -u | head -4 | tr '\n' ' ')
-  if [ $rc -eq 1 ] && grep -q "^VIOLATION property=$C " "$S/c.log"; then echo "check $C: DETECTED $sigs"; DET="$DET $C"; grep -A1 "violation sig" "$S/c.log" | head -4 > "$OUT/detected_by_$C.txt"
+  sigs=$(grep -a -o 'violation sig=[^ ]*' "$S/c.log" | sort -u | head -4 | tr '\n' ' ')
+  if [ $rc -eq 1 ] && grep -a -q "^VIOLATION property=$C " "$S/c.log"; then echo "check $C: DETECTED $sigs"; DET="$DET $C"; grep -a -A1 "violation sig" "$S/c.log" | head -4 > "$OUT/detected_by_$C.txt"
   else echo "check $C: not detected (exit $rc)"; tail -3 "$S/c.log"; fi
 done
 python3 - "$ID" "$R_BUILD" "$R_TESTS" "$R_DEMO_MUT" "$R_DEMO_BASE" "$DET" "$CHECKS" <<'PY'
